@@ -16,6 +16,7 @@ import (
 	"math/rand"
 	"os"
 	"path/filepath"
+	"reflect"
 	"strings"
 	"sync"
 	"time"
@@ -225,8 +226,22 @@ func caseTerm(h *Hist) string {
 	for _, v := range res.Valid {
 		valid = append(valid, fmt.Sprintf("(%d, %d, %d)", v.Height, v.Hash, v.FHdr))
 	}
-	return fmt.Sprintf("(%d, mkNCase %d %s %s\n  %s\n  %s %s)", h.ID, h.ChainLen, c.Bool(h.GrowCount > 0), c.List(lies),
-		c.List(samples), c.List(valid), c.Bool(res.Converged))
+	// root-cause observables: a node that never answers getheaders; the
+	// header tip and the honest node's ban flag at the last sample
+	silentHdr, honest := false, -1
+	for i, n := range h.Nodes {
+		for _, x := range n.B.Silent {
+			if x == "getheaders" {
+				silentHdr = true
+			}
+		}
+		if honest < 0 && n.Chain == "main" && reflect.DeepEqual(n.B, ns.Behaviour{}) {
+			honest = i
+		}
+	}
+	honestBanned := honest >= 0 && honest < len(res.Final.Banned) && res.Final.Banned[honest]
+	return fmt.Sprintf("(%d, mkNCase %d %s %s\n  %s\n  %s %s %s %s %s)", h.ID, h.ChainLen, c.Bool(h.GrowCount > 0), c.List(lies),
+		c.List(samples), c.List(valid), c.Bool(res.Converged), c.Bool(silentHdr), c.Z(int64(res.Final.HdrTip)), c.Bool(honestBanned))
 }
 
 // bestBlockTable ties the model's best_block (coq/C04/Spec.v) to the real
